@@ -196,9 +196,14 @@ def probes():
     """name -> (bytecode, cache keys observed, [configs])
     config = (label, kwargs for run_script, extra expectation dict)"""
     P = {}
+    # "flag values must have type int or bool" (docs.md): off is False or 0,
+    # on is True or 1 (the two integer forms come after the slices taken
+    # below)
     flagcfg = lambda f: [(f'flag{f}=on', {'additional_flags': {f: True}}),
                          (f'flag{f}=off', {'additional_flags': {f: False}}),
-                         ('default', {})]
+                         ('default', {}),
+                         (f'flag{f}=off(0)', {'additional_flags': {f: 0}}),
+                         (f'flag{f}=on(1)', {'additional_flags': {f: 1}})]
     P['invoke'] = (isa.push(b'a') + isa.push(b'\x01') + isa.push(CID)
                    + O('INVOKE') + O('POP0'), [b'IR'], flagcfg(0))
     P['dscalar'] = (isa.push(SEED) + O('DERIVE_SCALAR') + O('POP0'), [b'x'],
@@ -351,7 +356,7 @@ def spec_effect(pname, label, kw):
     """documented effect: dict key -> must be present (True) / absent (False);
     plus expected plugin / contract counts"""
     fl = kw.get('additional_flags', {})
-    on = lambda f: fl.get(f, True)
+    on = lambda f: bool(fl.get(f, True))
     e = {'keys': {}, 'sig_ext': None, 'ct_plugin': None, 'invoke': None,
          'transfer': None, 'o': None, 'global_ext': None}
     has_plugin = bool(kw.get('plugins', {}).get('signature_extensions'))
